@@ -29,6 +29,7 @@ struct Obj {
 
 pub struct World {
     spread: f32,
+    fast: bool,
     scenes: Vec<(u64, Vec<Obj>)>,
     rng: StdRng,
     miss: f64,
@@ -65,7 +66,7 @@ impl World {
             }
             sc.push((*s, objs));
         }
-        World { spread, scenes: sc, rng, miss: 0.15, jitter: 1.0 }
+        World { spread, fast, scenes: sc, rng, miss: 0.15, jitter: 1.0 }
     }
 
     /// advances the objects of one scene and returns the detections (shuffled, with misses)
@@ -84,7 +85,17 @@ impl World {
                 self.rng.gen_range(0.45..1.0f32),
                 self.rng.gen_bool(miss),
             );
+            let grow = self.fast && self.rng.gen_bool(0.3);
+            let up = self.rng.gen_bool(0.5);
             let o = &mut self.scenes[idx].1[k];
+            if grow {
+                // objects change size abruptly (approaching / receding): radii of detection and track differ
+                let f = if up { 1.3 } else { 1.0 / 1.3 };
+                if o.h * f > 35.0 && o.h * f < 140.0 {
+                    o.h *= f;
+                    o.w *= f;
+                }
+            }
             o.x += o.vx;
             o.y += o.vy;
             if o.x < 400.0 - 1.5 * spread || o.x > 400.0 + 1.5 * spread {
